@@ -99,6 +99,10 @@ impl std::io::Write for Frames {
     }
 }
 
+/// what the ctxCall handler leaves in the response extensions
+#[derive(Clone)]
+pub struct CtxMarker(pub usize);
+
 pub struct BytesWriter(pub Vec<u8>);
 
 impl WriteBody<Frames> for BytesWriter {
@@ -207,6 +211,17 @@ macro_rules! matrix_impl {
             }
             $($asyncness)? fn headers(&self, hs: String, ho: Option<i32>, hu: Uuid, ha: a::PlStr, he: Option<a::Color>, hd: f64) -> Result<String, Error> {
                 self.record("headers", vec![("hs", j(&hs)), ("ho", j(&ho)), ("hu", j(&hu)), ("ha", j(&ha)), ("he", j(&he)), ("hd", j(&hd))]);
+                self.ret()
+            }
+            $($asyncness)? fn ctx_call(&self, p: String, hoa: a::OptStrAlias, q: Option<String>, mut request_context_: conjure_http::server::RequestContext<'_>) -> Result<String, Error> {
+                // what the handler sees through the request context must be the request that was sent
+                let uri = request_context_.request_uri().to_string();
+                let hdr = request_context_.request_headers().get("x-optalias").map(|v| String::from_utf8_lossy(v.as_bytes()).to_string());
+                let nhdr = request_context_.request_headers().len();
+                request_context_.response_extensions_mut().insert(CtxMarker(p.len()));
+                let seen = request_context_.response_extensions().get::<CtxMarker>().map(|m| m.0);
+                self.record("ctxCall", vec![("p", j(&p)), ("hoa", j(&hoa)), ("q", j(&q)), ("@uri", json!(uri)), ("@hdr", json!(hdr)), ("@nhdr", json!(nhdr)),
+                    ("@marker", json!(seen))]);
                 self.ret()
             }
             $($asyncness)? fn auth_header(&self, auth_: BearerToken, q: String) -> Result<String, Error> {
@@ -552,6 +567,7 @@ impl Loop {
             Ok((name, status, rheaders, buf)) => {
                 exch["endpoint"] = json!(name);
                 exch["status"] = json!(status.as_u16());
+                exch["resp_marker"] = json!(ext.get::<CtxMarker>().map(|m| m.0));
                 exch["resp_ctype"] = json!(rheaders.get(http::header::CONTENT_TYPE).map(|v| String::from_utf8_lossy(v.as_bytes()).to_string()));
                 exch["resp_len"] = json!(buf.len());
                 self.rec.lock().unwrap().exchanges.push(exch);
@@ -698,6 +714,10 @@ macro_rules! gen_calls {
                 }
                 "names" => $w!(c.names(arg(args, "type")?, arg(args, "fooBar")?, arg(args, "async")?, arg(args, "camelCase")?, arg(args, "self")?,
                     &arg::<Vec<i32>>(args, "snakeArg")?, arg(args, "match")?)).map(|v| j(&v)),
+                "ctxCall" => {
+                    let q: Option<String> = arg(args, "q")?;
+                    $w!(c.ctx_call(&arg::<String>(args, "p")?, &arg::<a::OptStrAlias>(args, "hoa")?, q.as_deref())).map(|v| j(&v))
+                }
                 "optQuery" => {
                     let first: Option<String> = arg(args, "first")?;
                     $w!(c.opt_query(first.as_deref(), &arg::<Vec<i32>>(args, "lst")?, &arg::<BTreeSet<String>>(args, "st")?, arg(args, "last")?)).map(|v| j(&v))
